@@ -14,8 +14,8 @@ import (
 func TestMain(m *testing.M) { hx.Main(m) }
 
 var (
-	one    = big.NewInt(1)
-	two64  = new(big.Int).Lsh(one, 64)
+	one   = big.NewInt(1)
+	two64 = new(big.Int).Lsh(one, 64)
 )
 
 func bu(x uint64) *big.Int { return new(big.Int).SetUint64(x) }
@@ -75,4 +75,3 @@ func fastSign(d *big.Int, h cipher.SHA256, i int) cipher.Sig {
 	sig[64] = byte(rec)
 	return sig
 }
-
